@@ -259,7 +259,7 @@ fn query_generic(s: &Stmt, o: &ObsSpec, live: bool, partial: &mut Option<String>
                             }
                         });
                         match r {
-                            Ok(text) => format!("{} || {:?} || {}", text, w.params, w.events.len()),
+                            Ok(text) => format!("{} || {:?}", text, w.params),
                             Err(m) => {
                                 *partial = Some(w.text.clone());
                                 std::panic::resume_unwind(Box::new(m));
@@ -332,7 +332,7 @@ fn query_dyn(q: &dyn QueryStatementBuilder, o: &ObsSpec, live: bool, partial: &m
                         }
                     });
                     match r {
-                        Ok(text) => format!("{} || {:?} || {}", text, w.params, w.events.len()),
+                        Ok(text) => format!("{} || {:?}", text, w.params),
                         Err(m) => {
                             *partial = Some(w.text.clone());
                             std::panic::resume_unwind(Box::new(m));
